@@ -63,6 +63,10 @@ func (eng *Engine) verifyFunction(fn *ssa.Function, key string, c *Contract) (re
 		v := freshValue("fv."+fv.Name(), fv.Type())
 		ex.boundRefs(v, fv.Type(), st.alloc)
 		ex.env[envKey{"", fv}] = v
+		if ex.freeVars == nil {
+			ex.freeVars = map[string]Value{}
+		}
+		ex.freeVars[fv.Name()] = v
 	}
 	ex.entry = st.clone()
 	// requires
@@ -275,6 +279,8 @@ func occurrence(b *ssa.BasicBlock, succIdx int) int {
 
 func (ex *executor) loopEnter(n *node, li *loopInfo, st *state) {
 	lc := li.lc
+	ex.curLoop = li
+	defer func() { ex.curLoop = nil }()
 	// 1. invariant holds on entry
 	for i, inv := range lc.Invariants {
 		t := ex.evalBoolClause(inv, st, ex.root().entry, nil)
@@ -313,6 +319,8 @@ func (decKey) Pos() token.Pos                { return token.NoPos }
 func (ex *executor) loopBack(n *node, st *state) {
 	li := n.loop
 	lc := li.lc
+	ex.curLoop = li
+	defer func() { ex.curLoop = nil }()
 	for i, inv := range lc.Invariants {
 		t := ex.evalBoolClause(inv, st, ex.root().entry, nil)
 		ex.addObligation(st, "inv-preserved", fmt.Sprintf("loop %d %s", li.index, clauseLabel(inv, i)), Implies(st.pc, t), li.pos)
@@ -352,6 +360,9 @@ func (ex *executor) loopFrameObligation(li *loopInfo, st *state) {
 	}
 	var goals []*Term
 	for name, h := range st.heaps {
+		if strings.HasPrefix(name, "R:") {
+			continue
+		}
 		cls := ex.eng.classes[name]
 		h0, ok := lf.head[name]
 		if !ok {
@@ -382,6 +393,7 @@ func clauseLabel(c *Clause, i int) string {
 func (ex *executor) havocLoop(li *loopInfo, st *state) {
 	na := FreshVar("alloc", IntSort)
 	ex.assume(st, ILe(st.alloc, na))
+	var ghostVisited []string
 	all := false
 	classes := map[string]bool{}
 	for b := range li.body {
@@ -410,6 +422,14 @@ func (ex *executor) havocLoop(li *loopInfo, st *state) {
 			case *ssa.MapUpdate:
 				for _, cn := range ex.mapClasses(t.Map.Type()) {
 					classes[cn] = true
+				}
+			case *ssa.Next:
+				if rg, ok := t.Iter.(*ssa.Range); ok && !t.IsString {
+					if li.body[rg.Block()] {
+						// nested range statement: re-initialised inside the body
+					} else {
+						ghostVisited = append(ghostVisited, ex.visitedClass(rg).Name)
+					}
 				}
 			case ssa.CallInstruction:
 				eff := ex.callEffects(t.Common())
@@ -471,6 +491,11 @@ func (ex *executor) havocLoop(li *loopInfo, st *state) {
 		nh.bound = na
 		st.heaps[cn] = nh
 		head[cn] = nh
+	}
+	for _, cn := range ghostVisited {
+		if cls := ex.eng.classes[cn]; cls != nil {
+			st.heaps[cn] = ex.heapOf(st, cls).Havoc(tag+"v", nil)
+		}
 	}
 	if allowed != nil {
 		if ex.loopFrames == nil {
